@@ -1650,6 +1650,9 @@ def integer_dtype(n):
     return dtype
 
 
+_infinities = (float("inf"), float("-inf"))
+
+
 def _creation_commands_literal(value):
     """Return Python source text for a value in creation commands.
 
@@ -1698,5 +1701,9 @@ def _creation_commands_literal(value):
             items += ","
 
         return "(" + items + ")"
+
+    if isinstance(value, float) and (value != value or value in _infinities):
+        # Not-a-number and the infinities have no literal
+        return f"float({str(value)!r})"
 
     return repr(value)
